@@ -1,6 +1,7 @@
 import Amgcl.Driver.Util
 import Amgcl.Model.Schedule
 import Amgcl.Model.ScheduleSort
+import Amgcl.Model.ScheduleLocal
 /-! handlers for the C09 schedule ops (harness/h_sched.cpp) -/
 namespace Amgcl.Driver.Schedule
 open Amgcl Amgcl.Driver Amgcl.Sched
@@ -9,16 +10,22 @@ def square (A : CRS Rat) : Bool := A.wfb && A.ncols == A.nrows
 def flag (b : Nat) : Bool := b ≤ 1
 def ntOk (nt : Nat) : Bool := 1 ≤ nt && nt ≤ 64
 
-def showTables (nt : Nat) (tk : List (List (List Nat))) : String :=
-  joinSp (("nt " ++ toString nt) :: tk.map fun t =>
-    let lt := localTasks t
-    joinSp (["t", toString lt.length] ++ lt.flatMap (fun be => [toString be.1, toString be.2])
-      ++ ["o", showNatVec t.flatten.toArray]))
+/-- one thread's storage as the hook dumps it: tasks (thread-local row ranges), `ord`, `ptr`, `col`, `val` and (upper
+ILU solve only) `D` -/
+def showLoc (hasD : Bool) (L : Loc Rat) : String :=
+  joinSp (["t", toString L.tasks.length] ++ L.tasks.flatMap (fun be => [toString be.1, toString be.2])
+    ++ ["o", showNatVec L.ord, "p", showNatVec L.ptr, "c", showNatVec L.col, "v", showVec L.val]
+    ++ (if hasD then ["d", showVec L.D] else []))
+
+def showTables (nt : Nat) (hasD : Bool) (Ls : List (Loc Rat)) : String :=
+  joinSp (("nt " ++ toString nt) :: Ls.map (showLoc hasD))
 
 /-- tables + the serial result; if the level function leaves a conflict (as-is variant on a non-symmetric
 pattern) the harness prints the reverse-thread execution instead, and so does the model -/
-def schedOut (fwd : Bool) (pat : Pattern) (ln : Array Nat × Nat) (nt : Nat) (upd : Vec Rat → Nat → Vec Rat)
+def schedOut (fwd : Bool) (A : CRS Rat) (hasD : Bool) (Dv : Vec Rat) (ln : Array Nat × Nat) (nt : Nat)
+    (upd : Vec Rat → Nat → Vec Rat) (locRun : List (Loc Rat) → List Ev → Vec Rat → Vec Rat)
     (serial : Vec Rat) (x : Vec Rat) : String :=
+  let pat := pattern A
   -- `ln` = (level, nlev) as step 1 accumulates them; steps 2-4 executed statement by statement (counting sort,
   -- chunking, `ord[tid]` gathered through `order`).  `Amgcl.C09.constructor_literal_eq_spec` proves
   -- `constructorLit ln nt = tasks level nt`; the run-time comparisons below are cross-checks only
@@ -41,8 +48,23 @@ def schedOut (fwd : Bool) (pat : Pattern) (ln : Array Nat × Nat) (nt : Nat) (up
   if cf && !(allExecs.all fun σ => isExec gsExpectedSkeleton tk nl σ && runRows upd σ x == serial) then
     "model-inconsistent: an admitted execution differs from serial" else
   if cf && !(adv.all fun σ => runRows upd σ x == serial) then "model-inconsistent: conflict-free schedule differs from serial" else
-  let out := if cf then serial else runRows upd (reverseThreadSchedule tk nl) x
-  showTables nt tk ++ " x " ++ showVec out
+  -- step 4 statement by statement: the thread-local tables (`Model/ScheduleLocal.lean`); they are what is printed and
+  -- compared with the dumped tables of the real constructor.  `Amgcl.C09b.local_tasks_eq_spec`,
+  -- `local_copy_faithful` prove the relations that are re-evaluated here as cross-checks
+  let Ls := constructorLoc A hasD Dv ln nt
+  if Ls.map (·.tasks) != tk.map localTasks || Ls.map (·.ord.toList) != tk.map List.flatten then
+    "model-inconsistent: thread-local tasks/ord" else
+  if !(Ls.all fun L => (List.range L.ord.size).all fun r =>
+        L.row r == A.row (L.ord.getD r 0) && (!hasD || L.D.getD r 0 == Dv.getD (L.ord.getD r 0) 0)) then
+    "model-inconsistent: thread-local row copy" else
+  let ev := evTable Ls
+  let advE := [reverseThreadG ev (nlevLoc Ls), roundRobinScheduleG ev (nlevLoc Ls), threadOrderG ev (nlevLoc Ls)]
+  if advE.map (·.map (rowOfEv Ls)) != adv then "model-inconsistent: event schedules" else
+  -- the literal `sweep`/`solve` loops over the thread-local tables, in the three adversarial event orders
+  if cf && !(advE.all fun σ => locRun Ls σ x == serial) then
+    "model-inconsistent: literal sweep over the thread-local tables differs from serial" else
+  let out := locRun Ls (if cf then threadOrderG ev (nlevLoc Ls) else reverseThreadG ev (nlevLoc Ls)) x
+  showTables nt hasD Ls ++ " x " ++ showVec out
 
 def strictTri (lower : Bool) (A : CRS Rat) : Bool :=
   (List.range A.nrows).all fun i => (A.row i).all fun cv => before lower cv.1 i
@@ -78,7 +100,7 @@ def handle (op : String) (args : List String) : Option String :=
         let ln := if op == "sched_gs_asis" then gsLevelsAsIsN fwd pat else gsLevelsN fwd pat
         let level := if op == "sched_gs_asis" then gsLevelsAsIs fwd pat else gsLevels fwd pat
         if ln.1 != level then "model-inconsistent: levels" else
-        schedOut fwd pat ln nt (gsRow A rhs) (gsSerialSweep fwd A rhs x) x
+        schedOut fwd A false #[] ln nt (gsRow A rhs) (fun Ls σ x => gsSweepLoc Ls rhs σ x) (gsSerialSweep fwd A rhs x) x
   | "sched_ilu" => withArgs (do let lo ← pNat; let nt ← pNat; let A ← pCRS; let D ← pVec; let x ← pVec; pure (lo, nt, A, D, x)) args
       fun (lo, nt, A, D, x) =>
         if !(flag lo && ntOk nt && square A && D.size == A.nrows && x.size == A.nrows && strictTri (lo == 1) A) then badInput else
@@ -86,7 +108,8 @@ def handle (op : String) (args : List String) : Option String :=
         let pat := pattern A
         let ln := iluLevelsN lower pat
         if ln.1 != iluLevels lower pat then "model-inconsistent: levels" else
-        schedOut lower pat ln nt (iluRow lower A D) (iluSerialHalf lower A D x) x
+        schedOut lower A (!lower) D ln nt (iluRow lower A D) (fun Ls σ x => iluSolveLoc lower Ls σ x)
+          (iluSerialHalf lower A D x) x
   | "gs_apply" => withArgs (do let nt ← pNat; let w ← pNat; let A ← pCRS; let rhs ← pVec; let x ← pVec; pure (nt, w, A, rhs, x)) args
       fun (nt, w, A, rhs, x) =>
         if !(ntOk nt && w ≤ 2 && square A && rhs.size == A.nrows && x.size == A.nrows) then badInput else
